@@ -297,6 +297,14 @@ func (e *Engine) harnessCall(st *State, fn *ssa.Function, args []Value) (Value, 
 			e.S.EndModel()
 		}
 		return nil, true
+	case "verifGoReset":
+		st.goCount = 0
+		return nil, true
+	case "verifGoCount":
+		if st.goCount < 0 {
+			unsupported("verifGoCount without verifGoReset")
+		}
+		return ConstBV(uint64(st.goCount), 64), true
 	case "verifItoa":
 		if t, ok := args[0].(*Term); ok && t.IsConst() {
 			return ConcreteString(fmt.Sprint(t.Signed())), true
